@@ -276,6 +276,16 @@ func propC15(j *Job) {
 			}
 		}
 	}
+	for mi, mode := range modes {
+		if mi > 1 && !j.Thorough() {
+			break
+		}
+		for _, what := range []string{"close", "blockwrite"} {
+			a, b := withBase(mode.A, 228, 9, 4000), withBase(mode.B, 228, 99, 4000)
+			a.BlockWrite = what == "blockwrite"
+			j.Explore(fmt.Sprintf("B/%s/reenter-%s", mode.Name, what), callbackReenterScenario(a, b, what), Budget{K: 0}, nil)
+		}
+	}
 	for _, mode := range modes {
 		j.Explore(fmt.Sprintf("B/%s/release-after-peer-reset", mode.Name), peerResetReleaseScenario(withBase(mode.A, 228, 9, 4000), withBase(mode.B, 228, 99, 4000)), Budget{K: 0}, nil)
 	}
@@ -364,6 +374,77 @@ func peerResetReleaseScenario(a, b epCfg) *Scenario {
 			}
 			m.Observe("cb=%d", cb)
 			m.CloseBoth()
+		},
+		Final: func(m *Sim, x *Exec) { generalVerdicts(m, x, false) },
+	}
+}
+
+// callbackReenterScenario: "it may call back into the stream or association".  The callback
+// (a) closes the association, or (b) in blocking-write mode writes the next message while the
+// previous one is still being sent.  Both calls are ordinary uses of the API from a callback
+// that holds no internal lock; they have to return.
+func callbackReenterScenario(a, b epCfg, what string) *Scenario {
+	return &Scenario{
+		Name:    "callback-reenter",
+		Horizon: 120 * time.Second,
+		Body: func(m *Sim) {
+			if !m.Connect(a, b) {
+				m.Failf("connect", "handshake failed: %v %v", m.Err[0], m.Err[1])
+				m.closeFailedTransports()
+				m.CloseBoth()
+				return
+			}
+			sa, _ := m.As[0].OpenStream(1, PayloadTypeWebRTCBinary)
+			sb, _ := m.As[1].OpenStream(1, PayloadTypeWebRTCBinary)
+			m.streamsSeen = append(m.streamsSeen, sa, sb)
+			rd := m.Go("readB", func() {
+				buf := make([]byte, 70000)
+				for {
+					if _, _, err := sb.ReadSCTP(buf); err != nil {
+						return
+					}
+				}
+			})
+			entered, returned := false, false
+			sa.SetBufferedAmountLowThreshold(5000)
+			sa.OnBufferedAmountLow(func() {
+				if entered {
+					return
+				}
+				entered = true
+				if held := m.S.HeldClasses(); len(held) > 0 {
+					m.Failf("callback.locks", "OnBufferedAmountLow invoked with internal locks held: %v", held)
+				}
+				switch what {
+				case "close":
+					_ = m.As[0].Close()
+				case "blockwrite":
+					_, _ = sa.WriteSCTP(payload(1, 1, 300), PayloadTypeWebRTCBinary)
+				}
+				returned = true
+			})
+			if _, err := sa.WriteSCTP(payload(1, 0, 6000), PayloadTypeWebRTCBinary); err != nil {
+				m.Failf("write", "first write: %v", err)
+			}
+			m.WaitUntil("callback-entered", 20*time.Second, func() bool { return entered })
+			ok := m.WaitUntil("callback-returned", 10*time.Second, func() bool { return returned })
+			if entered && !ok {
+				m.Failf("callback.reenter", "%s called from the OnBufferedAmountLow callback has not returned after 10 s: the callback runs on the association's read loop, which the call waits for", map[string]string{"close": "Association.Close", "blockwrite": "a blocking Stream.Write"}[what])
+			} else if !entered {
+				m.Failf("callback.missing", "the callback was never invoked")
+			}
+			m.Observe("%s returned=%v", what, returned)
+			xt := m.Go("cleanup", func() {
+				if what == "close" && !returned {
+					// A's read loop waits for itself: nothing can end that association any more
+					_ = m.As[1].Close()
+					return
+				}
+				m.CloseBoth()
+			})
+			(&wconn{w: m.W, id: 0}).Close()
+			(&wconn{w: m.W, id: 1}).Close()
+			m.WaitUntil("all-back", 3*time.Second, func() bool { return rd.Done && xt.Done })
 		},
 		Final: func(m *Sim, x *Exec) { generalVerdicts(m, x, false) },
 	}
